@@ -541,3 +541,114 @@ pub fn abi_more<S: Src>(s: &mut S) {
         _ => run!(unsafe { AbiConnection::<dyn w1::More>::from_boxed_trait_for_test(<dyn w1::More as AbiExportable>::ABI_ENTRY, Box::new(MoreImpl) as Box<dyn w1::More>) }.expect(connect_err)),
     }
 }
+
+// ---- nested trait objects across versions; ownership when the implementation panics ------------------------------
+pub mod n0 {
+    use savefile_derive::{savefile_abi_exportable, Savefile};
+    #[derive(Savefile, Clone, Debug, PartialEq)]
+    pub struct Job { pub id: u32 }
+    #[savefile_abi_exportable(version = 0)]
+    pub trait Listener { fn done(&self, x: u32) -> u32; }
+    #[savefile_abi_exportable(version = 0)]
+    pub trait Worker { fn submit(&self, j: Job) -> u32; }
+    #[savefile_abi_exportable(version = 0)]
+    pub trait Factory {
+        fn notify(&self, l: Box<dyn Listener>) -> u32;
+        fn make(&self) -> Box<dyn Worker>;
+        fn eat_then_panic(&self, f: Box<dyn Fn(u32) -> u32>, x: u32) -> u32;
+    }
+}
+pub mod n1 {
+    use savefile_derive::{savefile_abi_exportable, Savefile};
+    #[derive(Savefile, Clone, Debug, PartialEq)]
+    pub struct Job { pub id: u32, #[savefile_versions = "1.."] pub priority: u8 }
+    #[savefile_abi_exportable(version = 1)]
+    pub trait Listener { fn done(&self, x: u32) -> u32; fn progress(&self, p: u8) -> u8; }
+    #[savefile_abi_exportable(version = 1)]
+    pub trait Worker { fn submit(&self, j: Job) -> u32; }
+    #[savefile_abi_exportable(version = 1)]
+    pub trait Factory {
+        fn notify(&self, l: Box<dyn Listener>) -> u32;
+        fn make(&self) -> Box<dyn Worker>;
+        fn eat_then_panic(&self, f: Box<dyn Fn(u32) -> u32>, x: u32) -> u32;
+    }
+}
+pub struct Fac0;
+pub struct Fac1;
+struct Wk0;
+struct Wk1;
+impl n0::Worker for Wk0 { fn submit(&self, j: n0::Job) -> u32 { j.id.wrapping_mul(10) } }
+impl n1::Worker for Wk1 { fn submit(&self, j: n1::Job) -> u32 { j.id.wrapping_mul(10).wrapping_add(j.priority as u32) } }
+impl n0::Factory for Fac0 {
+    fn notify(&self, l: Box<dyn n0::Listener>) -> u32 { l.done(41) }
+    fn make(&self) -> Box<dyn n0::Worker> { Box::new(Wk0) }
+    fn eat_then_panic(&self, f: Box<dyn Fn(u32) -> u32>, x: u32) -> u32 { let y = f(x); if x == 3 { panic!("eat-panic-{}", y) } y }
+}
+impl n1::Factory for Fac1 {
+    fn notify(&self, l: Box<dyn n1::Listener>) -> u32 { l.done(41) }
+    fn make(&self) -> Box<dyn n1::Worker> { Box::new(Wk1) }
+    fn eat_then_panic(&self, f: Box<dyn Fn(u32) -> u32>, x: u32) -> u32 { let y = f(x); if x == 3 { panic!("eat-panic-{}", y) } y }
+}
+struct L0(u32);
+struct L1(u32);
+impl n0::Listener for L0 { fn done(&self, x: u32) -> u32 { x.wrapping_add(self.0) } }
+impl n1::Listener for L1 { fn done(&self, x: u32) -> u32 { x.wrapping_add(self.0) } fn progress(&self, p: u8) -> u8 { p } }
+
+/// C09 + C10: boxed trait objects passed in and returned between differently-versioned peers (the nested interface has
+/// a method on one side only / an argument type that gained a field); a boxed closure handed to an implementation that
+/// then panics is still dropped exactly once.
+pub fn abi_nested<S: Src>(s: &mut S) {
+    use n0::{Factory as _, Worker as _};
+    use n1::{Factory as _, Worker as _};
+    let cv = s.below(2);
+    let dv = s.below(2);
+    let k = s.u32();
+    let pr = s.u8();
+    let what = s.below(3);
+    // (older caller, newer implementation): the implementation's view of the CALLBACK interface has a method the
+    // caller's listener objects lack; the library refuses such a connection when it is created (a callback the
+    // receiver might call but the provider cannot serve). The property speaks about methods of the connected
+    // interface itself, so nothing is demanded for this combination.
+    if cv == 0 && dv == 1 { return; }
+    DROPS.with(|d| d.set(0));
+    let msg = "C10: peers whose nested interfaces differ compatibly (a method on one side only, a versioned field) must connect";
+    macro_rules! eat {
+        ($conn:expr) => {{
+            let conn = $conn;
+            let g = Guard;
+            let r = catch_unwind(AssertUnwindSafe(|| conn.eat_then_panic(Box::new(move |x| { let _ = &g; x.wrapping_add(1) }), 3)));
+            assert!(r.is_err(), "C09: the implementation's panic reaches the caller");
+            assert!(DROPS.with(|d| d.get()) == 100, "C09: a boxed closure handed to an implementation that panics is dropped exactly once (drop count {})", DROPS.with(|d| d.get()) / 100);
+            let g2 = Guard;
+            assert!(conn.eat_then_panic(Box::new(move |x| { let _ = &g2; x.wrapping_add(1) }), 7) == 8, "C09: the connection stays usable");
+            assert!(DROPS.with(|d| d.get()) == 200);
+        }};
+    }
+    if cv == 0 {
+        let conn = if dv == 0 {
+            unsafe { AbiConnection::<dyn n0::Factory>::from_boxed_trait_for_test(<dyn n0::Factory as AbiExportable>::ABI_ENTRY, Box::new(Fac0) as Box<dyn n0::Factory>) }
+        } else {
+            unsafe { AbiConnection::<dyn n0::Factory>::from_boxed_trait_for_test(<dyn n1::Factory as AbiExportable>::ABI_ENTRY, Box::new(Fac1) as Box<dyn n1::Factory>) }
+        }.expect(msg);
+        match what {
+            0 => assert!(conn.notify(Box::new(L0(k))) == 41u32.wrapping_add(k), "C09/C10: a boxed trait object passed in stays callable (older caller)"),
+            1 => { let w = conn.make(); assert!(w.submit(n0::Job { id: k }) == k.wrapping_mul(10), "C10: a returned trait object: retained field unchanged, the field the caller lacks defaulted"); }
+            _ => eat!(conn),
+        }
+    } else {
+        let conn = if dv == 0 {
+            unsafe { AbiConnection::<dyn n1::Factory>::from_boxed_trait_for_test(<dyn n0::Factory as AbiExportable>::ABI_ENTRY, Box::new(Fac0) as Box<dyn n0::Factory>) }
+        } else {
+            unsafe { AbiConnection::<dyn n1::Factory>::from_boxed_trait_for_test(<dyn n1::Factory as AbiExportable>::ABI_ENTRY, Box::new(Fac1) as Box<dyn n1::Factory>) }
+        }.expect(msg);
+        match what {
+            0 => assert!(conn.notify(Box::new(L1(k))) == 41u32.wrapping_add(k), "C09/C10: a boxed trait object whose interface gained a method stays callable from an older implementation"),
+            1 => {
+                let w = conn.make();
+                let expect = if dv == 0 { k.wrapping_mul(10) } else { k.wrapping_mul(10).wrapping_add(pr as u32) };
+                assert!(w.submit(n1::Job { id: k, priority: pr }) == expect, "C10: arguments of a returned trait object travel in the negotiated version's format");
+            }
+            _ => eat!(conn),
+        }
+    }
+}
